@@ -19,6 +19,13 @@ Three streams (DESIGN.md §6 C14):
       commit 0; then random sequences of programs back to back in one process (debug build:
       0xDD/0xCD poisoning makes stale reads visible): each result is compared with the same
       program's stand-alone result, programs recur within a sequence;
+  (b') runs that consume standard input: sequences of reader programs (read_line k times) through
+      the playground replica in ONE process whose standard input is a pipe set up by this driver
+      — last line terminated or not, everything in one write or trickled, end of input seen at
+      once or late and hit never / once / repeatedly, no input at all — each run must print what
+      C17's reference says for the input not yet consumed (the only state carried from run to run)
+      and what the same program prints in a fresh process fed the remainder; plus single runs of
+      the shipped binary reading past the end of input;
   (c) model tie: random op histories drive the real scratch API (init / scratch_arena /
       allocator calls / drops) and the extracted theories/Scratch.v (`nsmodel scratch`);
       borrow targets, saved offsets, every returned block, offsets, commits, live counts
@@ -43,6 +50,7 @@ TRUSTED_EXTRA = [
     "C14: for a run that ends with the stack-overflow diagnostic only the bytes up to the diagnostic's header are compared between naija and the harness (the expression at which the native-stack budget trips depends on each executable's frame sizes)",
 ]
 ASSUMPTIONS = [
+    "runs that read standard input: the line terminator is byte 0x0A alone and read(2) reports end of input only at the end (C17's assumptions); the multi-run oracle is C17's reference (its theorem C17_read_line_successive makes it equal to the model for every chunking), runs only partition the calls",
     "clients of a scratch borrow follow the discipline stated in theories/Scratch.v (`disc`): only the newest borrow of an arena is used, a borrow grows/shrinks/writes/resets-to only blocks it allocated itself, resets target offsets between the borrow's saved offset and the current offset, init is called while no borrow is live. Against the source: the translator finds every arena reset outside src/arena (5 sites in runtime.rs) and checks that each targets an offset read from `.offset()` of the same arena by the same function or by each caller (Example runtime_resets_target_own_marks); that these marks are used in stack order is read from the code, not machine-checked",
     "generated programs are deterministic and terminate; runs that exhaust an arena or the harness time limit, and programs on which library and CLI both crash the interpreter with one output a prefix of the other (defects of other properties), are counted, not compared",
     "the model cannot exhibit a stale read of bytes left by a previous run (no modelled client reads what it has not written); equality of addresses and success/failure after re-initialisation is a theorem, equality of results is checked by the back-to-back debug runs (0xDD/0xCD poisoning)",
@@ -425,7 +433,7 @@ def gen_scratch_module():
     return gs
 
 
-def pipe_feed(p, data, cuts):
+def pipe_feed(p, data, cuts, wait=2.0, hold=0.0):
     """Writes data to p.stdin in the pieces given by the cut offsets; after each piece waits until
     the reader has taken everything out of the pipe (FIONREAD on the write end), so that every
     piece really arrives as (at least) one separate read()."""
@@ -440,11 +448,13 @@ def pipe_feed(p, data, cuts):
             p.stdin.flush()
             pos = c
             t0 = time.time()
-            while time.time() - t0 < 2.0:
+            while time.time() - t0 < wait:
                 n = struct.unpack("i", fcntl.ioctl(p.stdin.fileno(), termios.FIONREAD, b"\0\0\0\0"))[0]
                 if n == 0 or p.poll() is not None:
                     break
                 time.sleep(0.0003)
+        if hold:
+            time.sleep(hold)                 # end of input is seen later than the last byte
         p.stdin.close()
     except (BrokenPipeError, OSError):
         try:
@@ -490,7 +500,7 @@ def run_cli(mode, src, workdir, tag, release=False, limit=25, cuts=None):
         return "<stdin>", p.returncode, p.stdout, p.stderr
     except subprocess.TimeoutExpired:
         return None, 124, b"", b"[timeout]"
-    except OSError as ex:                      # E2BIG for --eval above the kernel's argument size limit
+    except (OSError, ValueError) as ex:        # E2BIG / embedded NUL: --eval cannot carry this text
         return None, 124, b"", ("[not run: %s]" % ex).encode()
 
 
@@ -588,8 +598,8 @@ def stream_cli(env, progs, res, searching, extra_cuts=None):
     for i, (kind, src) in enumerate(progs):
         data = src.encode()
         for m in MODES:
-            if m == "eval" and len(data) > EVAL_MAX:
-                continue
+            if m == "eval" and (len(data) > EVAL_MAX or b"\0" in data):
+                continue                     # a single argv string: at most 128 KiB, no NUL
             jobs.append((i, m))
         # the other ways a script reaches standard input: a redirected file (full read blocks) and a
         # pipe fed with small writes, cut inside a multi-byte character when there is one
@@ -828,6 +838,36 @@ def stream_invalid(env, scripts, res):
                                     "case": {"hex": data.hex(), "mode": m, "cuts": cuts, "name": name},
                                     "observed": "input that is not UTF-8 is %s in %s mode; stderr=%r" % (why, m, se[-200:])})
     res["extra"]["invalid_utf8_inputs"] = stats
+
+
+def framing_texts():
+    """Texts that are rejected or oddly framed — the input modes must agree with the library on
+    these too (same diagnostics with the same positions, same status, same output): a leading or
+    trailing BOM / NUL / `#!` line / lone CR / form feed / vertical tab / NBSP / U+2028 / U+2029,
+    empty, white-space-only and comment-only inputs, inputs that stop in the middle of a string,
+    a template, an escape, a call, a block."""
+    base = "make total get 2 add 3\nshout(total)\n"
+    odd = ["﻿", "\x00", "#!/usr/bin/env naija\n", "\r", "\x0c", "\x0b", " ", " ", " ",
+           "﻿﻿", "\t", "\r\n", " \n", "​", "\x1a", "\x7f", "\\", "@", "`", "￾", "\U000e0001"]
+    out = []
+    for o in odd:
+        out.append(o + base)                     # at the very beginning
+        out.append(base + o)                     # at the very end, after the final newline
+        out.append(base.rstrip("\n") + o)        # at the very end, no newline before it
+    out += list(odd)                             # alone
+    out += ["", " ", "\n", "\n\n\n", "  \t \n  ", "# only a comment", "# comment\n", "#", "#\n#\n", "# café ﻿",
+            "shout(1)\r", "shout(1)\rshout(2)\r", "shout(1)\n\rshout(2)", 'shout("a\rb")\n', 'shout("﻿")\n',
+            "shout(1)\n﻿shout(2)\n", "shout(1)\x0cshout(2)\n", "shout(1) \x00 shout(2)\n", "shout(1) shout(2)\n"]
+    out += ['shout("abc', 'shout("a {x', 'shout("a {', 'shout("a\\', 'shout("a\\n', 'make s get "x {', 'shout("{', '"', "'", 'shout(',
+            'shout(1', 'do f() start', 'do f() start\n    return 1\n', 'jasi (1 na 1) start\nshout(1)\n', 'shout("a" add', 'shout("\\u',
+            'shout("\\x4', 'make', 'make x', 'make x get', 'if to say (', 'shout([1, 2', 'shout(1)\nend', 'shout("café',
+            'shout("x") #', 'shout("a\\q")\n', 'shout("a\nb")\n', 'make x get 1.\n', 'make x get 1e\n', 'shout(1)#\r\nshout(2)\r\n']
+    seen, res = set(), []
+    for t in out:
+        if t not in seen:
+            seen.add(t)
+            res.append(("framing", t))
+    return res
 
 
 def analysis_caps():
@@ -1118,6 +1158,215 @@ def shrink_sequence(env, srcs):
 
 
 # ------------------------------------------------------------------------------------------
+# runs that consume standard input, one after another in one process
+
+def reader_program(tag, k, style):
+    """k calls of read_line, each result printed between brackets."""
+    if k == 0:
+        return 'shout("%s: no input wanted")\n' % tag
+    if style == "vars":
+        return "".join('make v%d get read_line("")\nshout("%s.%d=[{v%d}]")\n' % (i, tag, i, i) for i in range(k))
+    if style == "direct":
+        return "".join('shout("%s.%d=[" add read_line("") add "]")\n' % (tag, i) for i in range(k))
+    return ('make i get 0\njasi (i small pass %d) start\n    make l get read_line("")\n    shout("%s.{i}=[{l}]")\n'
+            '    i get i add 1\nend\n' % (k, tag))
+
+
+def reader_expected(tag, k, lines):
+    if k == 0:
+        return ("%s: no input wanted" % tag).encode()
+    return b"\n".join(("%s.%d=[" % (tag, i)).encode() + l + b"]" for i, l in enumerate(lines))
+
+
+def split_oracle(content, k):
+    """C17's reference (its theorem: for every chunking the k successive calls of one process return
+    the pieces between newlines, then "" for ever) — runs only partition the calls."""
+    ls = content.split(b"\n") + [b""] * k
+    return ls[:k]
+
+
+def remainder_after(content, j):
+    ps = content.split(b"\n")
+    return b"\n".join(ps[j:]) if j < len(ps) else b""
+
+
+def run_wasm_stdin(env, name, srcs, content, cuts=None, hold=0.0):
+    """One harness process = one sequence of playground runs; its standard input is a pipe carrying
+    `content`, written in one piece (cuts None) or in pieces each awaited until read."""
+    inp = os.path.join(env.work, name + ".in")
+    outp = os.path.join(env.work, name + ".out")
+    with open(inp, "w") as f:
+        cap, words = read_wiring("wasm")
+        f.write("W %d %s\nS q\n" % (cap, " ".join(words)))
+        for i, src in enumerate(srcs):
+            f.write("P %d %s\n" % (i, hx(src)))
+    if os.path.exists(outp):
+        os.remove(outp)
+    p = subprocess.Popen([common.harness_bin(), "pipeline", "wasm", inp, outp], stdin=subprocess.PIPE,
+                         stdout=subprocess.DEVNULL, stderr=subprocess.PIPE)
+    pipe_feed(p, content, cuts or [], wait=0.6, hold=hold)
+    try:
+        p.stdin = None
+        p.communicate(timeout=120)
+    except subprocess.TimeoutExpired:
+        p.kill()
+        p.communicate()
+        return None
+    recs = []
+    if os.path.exists(outp):
+        for l in open(outp).read().splitlines():
+            t = l.split()
+            if t and t[0] == "R":
+                rec = {"end": t[2]}
+                for kv in t[3:]:
+                    if "=" in kv:
+                        k, v = kv.split("=", 1)
+                        rec[k] = v
+                recs.append(rec)
+            elif t and t[0] == "ABORT":
+                recs.append({"end": "abort"})
+    for f_ in (inp, outp, outp + ".cap"):
+        if os.path.exists(f_):
+            os.remove(f_)
+    return recs
+
+
+STDIN_TEXTS = [b"", b"first", b"first\n", b"first\nsecond", b"first\nsecond\n", b"a\n\nb", b"\n", b"\n\n", b"one\ntwo\nthree",
+               "é\n日本\r\nlast\U0001f600".encode(), b"x" * 9000 + b"\ntail", b"l1\nl2\nl3\nl4\nunterminated",
+               b"only-newline-terminated\n", b"a\nb\nc\nd\ne\nf\n", b"tab\tand space \n  indented tail"]
+
+
+def gen_stdin_cases(rng, tier):
+    """(content, cuts | None, hold, [k per run], style).  Earlier runs read under every kind of ending
+    (last line terminated or not, everything in one write or trickled — tail in the same read as an
+    earlier line or in a read of its own —, end of input seen at once or late, hit never / once /
+    repeatedly, within one run and across runs, no input at all); later runs are probes."""
+    out = []
+    n = 0
+    texts = list(STDIN_TEXTS)
+    for _ in range(4 if tier == "quick" else 60):
+        ls = [rng.choice([b"w%d" % rng.randint(0, 99), b"", b"caf\xc3\xa9", b"x" * rng.choice([1, 50, 8191, 8192, 8193])]) for _ in range(rng.randint(1, 6))]
+        texts.append(b"\n".join(ls) + (b"\n" if rng.random() < 0.5 else b""))
+    for text in texts:
+        nl = len(text.split(b"\n"))
+        shapes = [[nl + 1, 1, 1], [nl, 1, 2], [1] * (nl + 2), [0, nl + 2, 0, 1], [max(nl - 1, 0), 3, 1]]
+        if tier != "quick":
+            shapes += [[nl + 3], [2, 2, 2], [rng.randint(0, 3) for _ in range(rng.randint(2, 6))]]
+        line_cuts = [i + 1 for i, b in enumerate(text) if b == 10]
+        deliveries = [(None, 0.0), (None, 0.15), (line_cuts, 0.0)]
+        if len(text) > 2:
+            deliveries.append(([rng.randint(1, len(text) - 1)], 0.0))
+            deliveries.append((line_cuts[-1:] if line_cuts else [len(text) // 2], 0.1))      # the tail in a write of its own
+        for si, ks in enumerate(shapes):
+            cuts, hold = deliveries[(n + si) % len(deliveries)] if tier == "quick" else deliveries[rng.randrange(len(deliveries))]
+            out.append((text, cuts, hold, ks, ["vars", "direct", "loop"][(n + si) % 3]))
+        n += 1
+    if tier == "quick":
+        # keep the quick tier small but cover every text with at least two shapes and every delivery
+        out = [c for i, c in enumerate(out) if i % 5 in (0, 1, 3)]
+    return out
+
+
+def stream_stdin_runs(env, res):
+    cases = gen_stdin_cases(env.rng, env.tier)
+    alone_cache = {}
+    lock = __import__("threading").Lock()
+
+    def fresh(src, rest, tag):
+        key = (src, rest)
+        with lock:
+            if key in alone_cache:
+                return alone_cache[key]
+        r = run_wasm_stdin(env, "alone_%s" % tag, [src], rest)
+        with lock:
+            alone_cache[key] = r
+        return r
+
+    def one(ic):
+        i, (text, cuts, hold, ks, style) = ic
+        srcs = [reader_program("r%d" % r, k, style) for r, k in enumerate(ks)]
+        recs = run_wasm_stdin(env, "seq_%d" % i, srcs, text, cuts, hold)
+        lines = split_oracle(text, sum(ks))
+        problems = []
+        if recs is None or len(recs) != len(ks) or any(r["end"] != "ok" for r in recs):
+            problems.append("the sequence did not finish: %s" % ([r.get("end") for r in recs] if recs else "timeout"))
+            return i, problems
+        j = 0
+        for r, k in enumerate(ks):
+            got = unhx(recs[r]["res"])
+            want = reader_expected("r%d" % r, k, lines[j:j + k])
+            if got != want:
+                problems.append("run %d of the process printed %r; the input not yet consumed at that point is %r, so it must print %r"
+                                % (r, got[-160:], remainder_after(text, j)[:80], want[-160:]))
+            elif k > 0:
+                al = fresh(srcs[r], remainder_after(text, j), "%d_%d" % (i, r))
+                if not al or al[0].get("end") != "ok" or unhx(al[0]["res"]) != got:
+                    problems.append("run %d prints %r in the sequence but %r in a fresh process whose standard input is the remaining %r"
+                                    % (r, got[-160:], unhx(al[0]["res"])[-160:] if al and al[0].get("res") else None, remainder_after(text, j)[:80]))
+            if recs[r].get("after") != "0,0,0,0":
+                problems.append("scratch arenas not restored after run %d: %s" % (r, recs[r].get("after")))
+            j += k
+        return i, problems
+
+    stats = {"sequences": 0, "runs": 0, "failed": 0}
+    with ThreadPoolExecutor(max_workers=8) as ex:
+        results = list(ex.map(one, enumerate(cases)))
+    for i, problems in results:
+        text, cuts, hold, ks, style = cases[i]
+        res["evaluations"] += 1
+        stats["sequences"] += 1
+        stats["runs"] += len(ks)
+        if problems:
+            stats["failed"] += 1
+            if sum(1 for f in res["failures"] if f.get("stream") == "stdin-run-sequences") < 4:
+                res["failures"].append({"key": "stdin-runs:" + common.chash("%r%r%r%r%s" % (text, cuts, hold, ks, style)),
+                                        "stream": "stdin-run-sequences",
+                                        "case": {"stdin_hex": text.hex(), "cuts": cuts, "hold": hold, "reads_per_run": ks, "style": style},
+                                        "observed": problems[0]})
+        elif sum(ks) > len(text.split(b"\n")) and len(ks) > 1:
+            res["_nontrivial"].add("stdin:" + common.chash("%r%r%r" % (text, ks, cuts)))
+    # the same through the shipped binary, one run per process: end of input hit repeatedly in one run
+    wd = os.path.join(env.work, "cli")
+    os.makedirs(wd, exist_ok=True)
+
+    def cli_one(ic):
+        i, (text, cuts, hold, ks, style) = ic
+        k = len(text.split(b"\n")) + 2
+        src = reader_program("c", k, style)
+        path = os.path.join(wd, "rd_%d.ns" % i)
+        open(path, "w").write(src)
+        e = dict(os.environ)
+        e.pop("RUST_BACKTRACE", None)
+        p = subprocess.Popen([common.naija_bin(), path], stdin=subprocess.PIPE, stdout=subprocess.PIPE, stderr=subprocess.PIPE, env=e)
+        pipe_feed(p, text, cuts or [], wait=0.6, hold=hold)
+        try:
+            p.stdin = None
+            so, se = p.communicate(timeout=60)
+        except subprocess.TimeoutExpired:
+            p.kill()
+            p.communicate()
+            return i, None
+        want = reader_expected("c", k, split_oracle(text, k)) + b"\n"
+        if p.returncode != 0 or so != want:
+            return i, "naija (reads %d lines) exits %d and prints %r, expected %r" % (k, p.returncode, so[-200:], want[-200:])
+        return i, ""
+
+    sel = [ic for ic in enumerate(cases) if ic[0] % 3 == 0]
+    with ThreadPoolExecutor(max_workers=8) as ex:
+        cres = list(ex.map(cli_one, sel))
+    stats["cli_reader_runs"] = len(cres)
+    for i, why in cres:
+        res["evaluations"] += 1
+        if why:
+            stats["failed"] += 1
+            text, cuts, hold, ks, style = cases[i]
+            if sum(1 for f in res["failures"] if f.get("stream") == "stdin-cli-reader") < 3:
+                res["failures"].append({"key": "stdin-cli:" + common.chash("%r%r%r" % (text, cuts, hold)), "stream": "stdin-cli-reader",
+                                        "case": {"stdin_hex": text.hex(), "cuts": cuts, "hold": hold, "style": style}, "observed": why})
+    res["extra"]["stdin_consuming_runs"] = stats
+
+
+# ------------------------------------------------------------------------------------------
 # stream (c): scratch API histories, implementation vs extracted model
 
 SIZES = [0, 1, 7, 8, 9, 63, 64, 128, 129, 160, 256, 257, 1000, 4095, 4096, 4097, 65535, 65536, 65537, 131072]
@@ -1331,7 +1580,7 @@ def shrink_scratch(env, cap, before, h, release):
 
 def correspond(env, searching=False, model=True):
     quick = env.tier == "quick"
-    n_prog = 240 if quick else 4000
+    n_prog = 380 if quick else 4200
     n_seq, seq_len = (40, 8) if quick else (800, 12)
     n_hist = 600 if quick else 30000
     if searching:
@@ -1359,6 +1608,7 @@ def correspond(env, searching=False, model=True):
         for fn in names:
             progs.append(("stress", open(os.path.join(sdir, fn)).read()))
     progs += PATH_CORPUS
+    progs += framing_texts()
     progs += gen_programs(env.rng, max(n_prog - len(progs), 10))
     n_small = len(progs)
     # large scripts: only through the CLI stream (all five input modes), not through the playground
@@ -1379,6 +1629,7 @@ def correspond(env, searching=False, model=True):
     stream_invalid(env, [x for x in scripts if not x[2]], res)
     progs = progs[:n_small]
     stream_sequences(env, progs, res, n_seq, seq_len, recs)
+    stream_stdin_runs(env, res)
     stream_scratch(env, res, n_hist, model, searching)
     res["distinct_nontrivial"] = len(res.pop("_nontrivial"))
     res["rule"] = ("(a) every program x {file, --eval, stdin by one write, stdin redirected from a file, stdin piped in pieces cut inside "
@@ -1400,7 +1651,33 @@ def replay(env, payload):
     common.build_naija()
     case = payload.get("case") or (payload.get("disagreements") or [{}])[0]
     inner = case.get("case", {})
-    if case.get("stream") == "invalid-utf8-input":
+    if case.get("stream") == "stdin-run-sequences":
+        text = bytes.fromhex(inner["stdin_hex"])
+        ks, style = inner["reads_per_run"], inner.get("style", "vars")
+        srcs = [reader_program("r%d" % r, k, style) for r, k in enumerate(ks)]
+        recs = run_wasm_stdin(env, "replay", srcs, text, inner.get("cuts"), inner.get("hold") or 0.0)
+        lines = split_oracle(text, sum(ks))
+        bad, j = recs is None or len(recs) != len(ks), 0
+        print("standard input %r, cut at %s, reads per run %s" % (text[:200], inner.get("cuts"), ks))
+        for r, k in enumerate(ks):
+            got = unhx(recs[r]["res"]) if recs and r < len(recs) and recs[r].get("res") else None
+            want = reader_expected("r%d" % r, k, lines[j:j + k])
+            print("run %d: %r %s" % (r, got, "" if got == want else "  <-- expected %r" % want))
+            bad = bad or got != want
+            j += k
+    elif case.get("stream") == "stdin-cli-reader":
+        text = bytes.fromhex(inner["stdin_hex"])
+        k = len(text.split(b"\n")) + 2
+        path = os.path.join(env.work, "rd.ns")
+        open(path, "w").write(reader_program("c", k, inner.get("style", "vars")))
+        p = subprocess.Popen([common.naija_bin(), path], stdin=subprocess.PIPE, stdout=subprocess.PIPE, stderr=subprocess.PIPE)
+        pipe_feed(p, text, inner.get("cuts") or [], wait=0.6, hold=inner.get("hold") or 0.0)
+        p.stdin = None
+        so, se = p.communicate(timeout=60)
+        want = reader_expected("c", k, split_oracle(text, k)) + b"\n"
+        print("standard input %r: naija prints %r, expected %r" % (text[:200], so, want))
+        bad = p.returncode != 0 or so != want
+    elif case.get("stream") == "invalid-utf8-input":
         data = bytes.fromhex(inner["hex"])
         fname, rc, so, se = run_cli(inner["mode"], data, env.work, "one", cuts=inner.get("cuts"))
         print("input %s (%d bytes, not UTF-8), %s mode: exit status %d, stdout %r, stderr %r" % (inner.get("name"), len(data), inner["mode"], rc, so[:200], se[-200:]))
